@@ -39,8 +39,13 @@ def one(name, workers):
             res['applied'] = 'worktree_failed: ' + r.stderr[-200:]
             return res
         patch = os.path.join(d, 'patch.diff')
+        ported = os.path.join(d, 'patch_ported.diff')     # the same change re-created after the code moved on
         r = sh(['git', '-C', wt, 'apply', patch])
         how = 'clean'
+        if r.returncode and os.path.exists(ported):
+            patch = ported
+            r = sh(['git', '-C', wt, 'apply', patch])
+            how = 'ported'
         if r.returncode:
             r = sh(['git', '-C', wt, 'apply', '-3', patch])
             how = '3way'
@@ -76,16 +81,16 @@ def main():
     with cf.ThreadPoolExecutor(a.jobs) as ex:
         for r in ex.map(lambda n: one(n, a.workers), names):
             results[r['name']] = r
-            ok = r['applied'] in ('clean', '3way') and all(v['rc'] == 1 and v['violation_lines'] for v in r['props'].values())
+            ok = r['applied'] in ('clean', '3way', 'ported') and all(v['rc'] == 1 and v['violation_lines'] for v in r['props'].values())
             print(r['name'], r['applied'], 'DETECTED' if ok else ('STALE' if r['applied'] == 'stale' else 'MISSED'),
                   {p: v['rc'] for p, v in r['props'].items()}, flush=True)
     sh(['git', '-C', '/repo', 'worktree', 'prune'])
     head = sh(['git', '-C', '/repo', 'rev-parse', '--short', 'HEAD']).stdout.strip()
     summary = {'repo_head': head,
-               'detected': sorted(n for n, r in results.items() if r['applied'] in ('clean', '3way') and
+               'detected': sorted(n for n, r in results.items() if r['applied'] in ('clean', '3way', 'ported') and
                                   all(v['rc'] == 1 and v['violation_lines'] for v in r['props'].values())),
                'stale': sorted(n for n, r in results.items() if r['applied'] == 'stale'),
-               'missed': sorted(n for n, r in results.items() if r['applied'] in ('clean', '3way') and
+               'missed': sorted(n for n, r in results.items() if r['applied'] in ('clean', '3way', 'ported') and
                                 not all(v['rc'] == 1 and v['violation_lines'] for v in r['props'].values())),
                'results': results}
     if not a.only:
